@@ -240,6 +240,9 @@ pub struct Vt {
     osc_fields: Vec<Vec<u8>>, // completed fields (at most 16)
     osc_cur: Vec<u8>,         // bytes since the last accepted separator
     osc_stored: usize,        // bytes stored so far (for the cap)
+    osc_capped: bool,         // a byte of the current OSC was dropped because of the cap
+    /// the OSC dispatched last lost bytes to the storage cap
+    pub last_osc_capped: bool,
     utf8: Utf8Dfa,
 }
 
@@ -262,6 +265,8 @@ impl Vt {
             osc_fields: vec![],
             osc_cur: vec![],
             osc_stored: 0,
+            osc_capped: false,
+            last_osc_capped: false,
             utf8: Utf8Dfa::default(),
         }
     }
@@ -284,7 +289,9 @@ impl Vt {
             c.osc_fields.clear();
             c.osc_cur.clear();
             c.osc_stored = 0;
+            c.osc_capped = false;
         }
+        c.last_osc_capped = false;
         if self.st != St::Utf8 {
             c.utf8 = Utf8Dfa::default();
         }
@@ -371,10 +378,12 @@ impl Vt {
                 self.osc_fields.clear();
                 self.osc_cur.clear();
                 self.osc_stored = 0;
+                self.osc_capped = false;
             }
             Act::OscPut => {
                 if let Some(cap) = self.cfg.osc_raw_cap {
                     if self.osc_stored >= cap {
+                        self.osc_capped = true;
                         return;
                     }
                 }
@@ -394,6 +403,7 @@ impl Vt {
                 if params.len() < MAX_OSC_PARAMS {
                     params.push(self.osc_cur.clone());
                 }
+                self.last_osc_capped = self.osc_capped;
                 out.push(Ev::Osc { params, bell: b == 0x07 });
             }
             Act::BeginUtf8 => {
